@@ -1,7 +1,7 @@
 #!/bin/sh
 # Apply every seeded change (seeded/<id>/patch.diff) to a scratch worktree of /repo, run the quick
 # check of the property it breaks against that worktree, and print one line per seed.
-# Every line must say rc=1 (a VIOLATION confirmed by replay). Usage: tools/regress_seeds.sh [ids...]
+# (each check stops at its first confirmed violation). Every line must say rc=1 (a VIOLATION confirmed by replay). Usage: tools/regress_seeds.sh [ids...]
 cd "$(dirname "$0")/.." || exit 2
 wt=$(mktemp -d /tmp/seedreg.XXXXXX)
 git -C /repo worktree add -q --detach "$wt" HEAD || exit 2
@@ -14,7 +14,7 @@ for id in $ids; do
   pid=$(python3 -c "import json;print(json.load(open('$d/meta.json'))['breaks_property'])")
   if ! git -C "$wt" apply "$PWD/$d/patch.diff" 2>/dev/null; then echo "$id $pid NOAPPLY"; bad=1; continue; fi
   s=$(date +%s)
-  out=$(VERIF_REPO="$wt" VERIF_NO_EVIDENCE=1 VERIF_NO_TRACEVAL=1 ./check "$pid" quick 2>/dev/null); rc=$?
+  out=$(VERIF_REPO="$wt" VERIF_NO_EVIDENCE=1 VERIF_NO_TRACEVAL=1 VERIF_STOPFIRST=1 ./check "$pid" quick 2>/dev/null); rc=$?
   [ $rc -ne 1 ] && bad=1
   echo "$id $pid rc=$rc $(( $(date +%s)-s ))s $(echo "$out" | grep -m1 'signature\|MACHINERY\|DISCREP' | cut -c1-200)"
   git -C "$wt" checkout -q -- .
